@@ -51,7 +51,7 @@ GEN = {
 }
 MC_MAXN = {"quick": 3, "thorough": 4}
 RANDOM = {"quick": 150, "thorough": 1500}
-CHUNK = 1200
+CHUNK = 1500
 
 
 def tset(xs):
@@ -85,20 +85,28 @@ def harness_input(names, groups):
     return {"names": qn, "callers": callers, "groups": groups}
 
 
-def validate_chunks(rows_path, work, tag):
-    """split an ndjson trace in chunks, validate each with TLC; returns [(global line, names)]"""
-    rows = open(rows_path).read().splitlines()
-    rejects = []
+def par(jobs, n=2):
+    """run thunks, at most n at a time (never more than two TLC JVMs per check); results in order"""
+    import concurrent.futures
+    with concurrent.futures.ThreadPoolExecutor(max_workers=n) as ex:
+        futs = [ex.submit(j) for j in jobs]
+        return [f.result() for f in futs]
+
+
+def validate_rows(rows, work):
+    """rows: ndjson lines; validated by TLC in chunks, two JVMs at a time -> [(global line, names)]"""
+    jobs = []
     for c in range(0, len(rows), CHUNK):
         part = rows[c:c + CHUNK]
-        p = os.path.join(work, "chunk-%s-%d.ndjson" % (tag, c))
+        p = os.path.join(work, "chunk-%d.ndjson" % c)
         with open(p, "w") as f:
             f.write("\n".join(part) + "\n")
-        r = vf.tlc_validate("IntentionsTrace", "IntentionsTrace.cfg", p, nevents=len(part), timeout=3000, heap="10g")
+        jobs.append(lambda p=p, c=c, n=len(part): (c, vf.tlc_validate("IntentionsTrace", "IntentionsTrace.cfg", p, nevents=n, timeout=3000, heap="8g")))
+    rejects = []
+    for c, r in par(jobs):
         for line, names in r.rejects:
             rejects.append((c + line, names))
-        os.remove(p)
-    return rows, rejects
+    return rejects
 
 
 def stats_of(rows, st):
@@ -127,17 +135,20 @@ def run(tier):
     work = vf.new_scratch("verif-c13-")
     verdict = vf.Verdict(PID)
     try:
-        mc = vf.tlc_mc("IntentionsMC", "mc.cfg", files={"mc.cfg": cfg_text("Intentions_mc.cfg", MaxN=MC_MAXN[tier])},
-                       timeout=3000, coverage=(tier == "thorough"), workers=min(8, vf.NCPU))
+        jobs = [lambda: vf.tlc_mc("IntentionsMC", "mc.cfg", files={"mc.cfg": cfg_text("Intentions_mc.cfg", MaxN=MC_MAXN[tier])},
+                                  timeout=3000, coverage=(tier == "thorough"), workers=min(8, vf.NCPU))]
+        for g in GEN[tier]:
+            jobs.append(lambda g=g: vf.tlc_gen("IntentionsMC", "gen.cfg", timeout=3000, heap="8g", files={"gen.cfg": cfg_text(
+                "Intentions_gen.cfg", Names=g["Names"], MaxN=g["MaxN"], MaxOps=g["MaxOps"], Mode=g["Mode"])}))
+        res = par(jobs)
+        mc = res[0]
         if tier == "thorough":
             vac = [n for n in mc.coverage_zero if n.startswith("Inv") or n in ("DoUpsert", "DoDelete")]
             if vac:
                 raise vf.Infra("vacuous model check: never evaluated %s" % vac)
         gens = []
         traces = []
-        for g in GEN[tier]:
-            r = vf.tlc_gen("IntentionsMC", "gen.cfg", timeout=3000, heap="8g", files={"gen.cfg": cfg_text(
-                "Intentions_gen.cfg", Names=g["Names"], MaxN=g["MaxN"], MaxOps=g["MaxOps"], Mode=g["Mode"])})
+        for g, r in zip(GEN[tier], res[1:]):
             groups = group_histories(r.traces)
             inp = os.path.join(work, "in-%s.json" % g["name"])
             with open(inp, "w") as f:
@@ -161,22 +172,32 @@ def run(tier):
               "bits": collections.Counter(), "list_len": collections.Counter()}
         samples = []
         pred_hits = collections.Counter()
+        rows, src = [], []
         for name, tp in traces:
-            rows, rejects = validate_chunks(tp, work, name.replace(":", "-"))
-            stats_of(rows, st)
-            if len(samples) < 3 and rows:
-                e = json.loads(rows[min(len(rows) - 1, 5)])
-                o = e["runs"][0]["obs"]
-                samples.append({"source": name, "rep": e["rep"], "history": e["runs"][0]["hist"], "orders_in_group": len(e["runs"]),
-                                "impl_list": o["list"], "impl_decisions_sample": o["dec"][:4], "accepted_by_tlc": not any(l == min(len(rows), 6) for l, _ in rejects)})
-            for line, names in rejects:
-                e = json.loads(rows[line - 1])
-                for nm in names:
-                    pred_hits[nm] += 1
-                    verdict.add("%s:%s:%s" % (PID, nm, e["rep"]),
-                                "predicate %s rejected by TLC at %s group %d (rep %s): first history %s" % (
-                                    nm, name, line, e["rep"], json.dumps(e["runs"][0]["hist"])[:300]),
-                                {"kind": "intent-group", "rep": e["rep"], "hists": [r_["hist"] for r_ in e["runs"]], "predicate": nm})
+            part = open(tp).read().splitlines()
+            rows += part
+            src += [name] * len(part)
+            os.remove(tp)
+        rejects = validate_rows(rows, work)
+        stats_of(rows, st)
+        rejected_lines = {l for l, _ in rejects}
+        for k, raw in enumerate(rows):
+            if len(samples) >= 3:
+                break
+            if (k + 1) in rejected_lines or (samples and src[k] == samples[-1]["source"]) or k % 7 != 5:
+                continue
+            e = json.loads(raw)
+            o = e["runs"][0]["obs"]
+            samples.append({"source": src[k], "rep": e["rep"], "history": e["runs"][0]["hist"], "orders_in_group": len(e["runs"]),
+                            "impl_list": o["list"], "impl_decisions_sample": o["dec"][:4], "accepted_by_tlc": True})
+        for line, names in rejects:
+            e = json.loads(rows[line - 1])
+            for nm in names:
+                pred_hits[nm] += 1
+                verdict.add("%s:%s:%s" % (PID, nm, e["rep"]),
+                            "predicate %s rejected by TLC at %s group %d (rep %s): first history %s" % (
+                                nm, src[line - 1], line, e["rep"], json.dumps(e["runs"][0]["hist"])[:300]),
+                            {"kind": "intent-group", "rep": e["rep"], "hists": [r_["hist"] for r_ in e["runs"]], "predicate": nm})
         # vacuity of the binding: the interesting classes must have been seen
         bits = st["bits"]
         need = {"allowed by an intention": any(b[0] == "1" and b[3] == "0" for b in bits),
